@@ -62,6 +62,11 @@ class Scheduler:
         self.priorities = {}
         self.on_point = None  # invariant hook: f(step, actor, label)
         self.tracer = None
+        self.timeout_decisions = []
+        self.replay_timeouts = None
+        import random as _random
+
+        self.timeout_rng = _random.Random("lock-timeouts:%r" % (self.params.get("timeout_seed", 0),))
         # bias: scheduling points inside code that touches shared state ("hot") are where
         # a pre-emption matters; elsewhere threads do thread-local work
         self.is_hot = None
@@ -273,6 +278,16 @@ class Scheduler:
         nxt.gate.release()
         me.gate.acquire()
 
+    def decide_timeout(self):
+        """Does this timed wait expire before the lock is released?  Seeded, recorded, replayable."""
+        i = len(self.timeout_decisions)
+        if self.replay_timeouts is not None and i < len(self.replay_timeouts):
+            d = bool(self.replay_timeouts[i])
+        else:
+            d = self.timeout_rng.random() < self.params.get("p_lock_timeout", 0.5)
+        self.timeout_decisions.append(d)
+        return d
+
     def _abort(self, why, info, park=True):
         """End the run: record why, wake the driver, and leave every actor thread parked for good (they are
         daemon threads of a process that exits right after).  Nothing is raised inside actor threads: an
@@ -299,6 +314,7 @@ class SimLock:
         self.waiters = []
         self.acquisitions = 0
         self.contended = 0
+        self.timeouts = 0
 
     def acquire(self, blocking=True, timeout=-1):
         s = self.sched
@@ -310,6 +326,10 @@ class SimLock:
         s.point("lock.acquire:" + self.name)
         while self.owner is not None:
             if not blocking:
+                return False
+            if timeout is not None and timeout >= 0 and s.decide_timeout():
+                # a timed wait: the holder may need longer than the timeout (the scheduler decides, seeded)
+                self.timeouts += 1
                 return False
             self.contended += 1
             self.waiters.append(me)
